@@ -799,6 +799,18 @@ func runUnguardedRules(p *Program, id string) ([]*Gen, []string) {
 							continue
 						}
 					}
+					if wm := kv["when-map"]; wm != "" {
+						// only lookups / updates of a map with this access path
+						mp := ""
+						if lk, ok := in.(*ssa.Lookup); ok {
+							mp = valuePath(lk.X)
+						} else if mu, ok := in.(*ssa.MapUpdate); ok {
+							mp = valuePath(mu.Map)
+						}
+						if mp == "" || !pathMatches(mp, wm) {
+							continue
+						}
+					}
 					if w := kv["when"]; w != "" {
 						// only stores whose value has this shape
 						st, isSt := in.(*ssa.Store)
@@ -999,6 +1011,22 @@ func runUnguardedRules(p *Program, id string) ([]*Gen, []string) {
 							if !cone["param:"+parts[1]] {
 								o.Pre = "sat"
 								o.Model = fmt.Sprintf("argument %d is %s, which is not computed from parameter %s", an, valuePath(c.Call.Args[an]), parts[1])
+							}
+						}
+					}
+					// required key of a map lookup (keypath=PAT OR PAT; with when-map=PAT only lookups in that map count)
+					if kp := kv["keypath"]; kp != "" {
+						if lk, isLk := in.(*ssa.Lookup); isLk {
+							got := valuePath(lk.Index)
+							okAlt := false
+							for _, alt := range strings.Split(kp, " OR ") {
+								if pathMatches(got, strings.TrimSpace(alt)) {
+									okAlt = true
+								}
+							}
+							if !okAlt {
+								o.Pre = "sat"
+								o.Model = "the key looked up in " + valuePath(lk.X) + " is " + got + ", expected " + kp
 							}
 						}
 					}
